@@ -432,6 +432,17 @@ fn condition_norule(t: &std::sync::Arc<Table>, rep: &mut Report, th: bool) {
             }
         }
     }
+    // the piecewise expression below two stacked unary operators (in the deep form a level that
+    // consists of one nested level only), for a slice of the trees
+    let u = |n: &str| -> u16 { t.ops.iter().position(|o| o.name == n && o.unary).unwrap() as u16 };
+    let n_plain = trees.len();
+    for i in 0..n_plain {
+        if th || i % 4 == 0 {
+            for (o, inner) in [("sin", "-"), ("-", "sin"), ("-", "-")] {
+                trees.push(Tree::un(u(o), Tree::un(u(inner), trees[i].clone())));
+            }
+        }
+    }
     let accs = par_ranges(trees.len() as u64, 16, install_panic_hook, |st, en, acc| {
         let r = Renderer { t, lk: LitKind::Val };
         for i in st..en {
@@ -458,7 +469,7 @@ fn condition_norule(t: &std::sync::Arc<Table>, rep: &mut Report, th: bool) {
     for a in accs {
         rep.absorb(a);
     }
-    rep.bounds.push(format!("condition-with-no-rule-operator: {} piecewise trees `F if (A op B) cmp C else G` (op in % << >>) x partial_relaxed (PerOperand, None) x flat / deep / deep->flat x every variable x 8 integer points: complete", trees.len()));
+    rep.bounds.push(format!("condition-with-no-rule-operator: {} piecewise trees `F if (A op B) cmp C else G` (op in % << >>; a slice also below two stacked unary operators) x partial_relaxed (PerOperand, None) x flat / deep / deep->flat x every variable x 8 integer points: complete", trees.len()));
 }
 
 /// `F if A cmp B else G` for all six comparisons, every pair of leaves (the differentiation
